@@ -104,14 +104,27 @@ def random_cases(acc, enc, n, seed):
     # in the process is met by the others); *enc* only rotates the order
     order = list(ENCODERS[ENCODERS.index(enc):] + ENCODERS[:ENCODERS.index(enc)])
 
+    decimals = st.sampled_from(["1.50", "-0", "0E-10", "1E+999", "NaN", "sNaN", "Infinity",
+                                "-Infinity", "123456789.123456789123456789"])
+    extra = st.one_of(
+        st.just(None), st.just(None), st.just(None),
+        decimals.map(lambda t: ["DECIMAL_VALUE", {"dec": t}]),
+        decimals.map(lambda t: ["DECIMAL_QUANTITY", {"q": [{"dec": t}, "K"]}]),
+        decimals.map(lambda t: ["DECIMALS", {"seq": [{"q": [{"dec": t}, "m"]}, {"dec": t}]}]))
+
     @hseed(seed)
     @settings(max_examples=n, database=None, deadline=None,
               phases=[Phase.generate],
               suppress_health_check=list(HealthCheck))
-    @given(st.sampled_from(order).flatmap(c01.cases), st.sampled_from([None] * 5 + [0, 1, 2]))
-    def body(case, dec):
+    @given(st.sampled_from(order).flatmap(c01.cases), st.sampled_from([None] * 5 + [0, 1, 2]),
+           extra)
+    def body(case, dec, extra_item):
         enc = case["enc"]
         case = dict(case, dec=dec if enc in DECODER_ONLY else None)
+        if extra_item is not None:
+            # decimal.Decimal values (what a decoder with real_cls=Decimal returns),
+            # special values included: written as a number or refused
+            case["spec"] = list(case["spec"]) + [extra_item]
         if acc.expired():
             acc.notes["budget_exhausted"] = 1
             return
